@@ -21,6 +21,9 @@ from ..cfg import must_facts, holds, canon_fact
 from ..rules import settle_sites, check_settles
 from ..mutate import mutate, remove_stmts, replace_expr, replace_stmt, parse_stmt, parse_expr
 from ..model import AnalysisError
+from ..x_syncnorm import normalized
+
+NORM_MODULES = ("tornado/locks.py", "tornado/queues.py", "tornado/gen.py", "tornado/concurrent.py", "tornado/ioloop.py", "tornado/platform/asyncio.py")
 from ..x_sync import in_cycle, check_none_tests, own_walk, guard_models, aug_delta, node_counts, method_call_on, exit_states, lambda_or_func_body_calls, own_find, own_settle_sites
 from .c33 import check_fifo, check_gc, check_timeout_cb, _is_grant, _grant_target, _grant_value, _timeout_param, _drop_done_test, _rename_attr
 
@@ -126,7 +129,20 @@ def check_notify(ck):
     ps = [p for p in fi.params() if p != "self"]
     if len(ps) != 1:
         raise AnalysisError("%s: expected one parameter (n)" % fi.site())
+    # the counter: the parameter itself, or a local initialised from it (`remaining = n`) that is the one decremented
     nvar = ps[0]
+    dec_names = set()
+    for st in own_walk(fi.node):
+        if isinstance(st, ast.AugAssign) and isinstance(st.op, ast.Sub) and isinstance(st.target, ast.Name):
+            dec_names.add(st.target.id)
+        elif isinstance(st, ast.Assign) and len(st.targets) == 1 and isinstance(st.targets[0], ast.Name) and isinstance(st.value, ast.BinOp) and isinstance(st.value.op, ast.Sub) and q.dotted(st.value.left) == st.targets[0].id:
+            dec_names.add(st.targets[0].id)
+    copies = {nm for nm in dec_names if nm != ps[0] and any(isinstance(st, ast.Assign) and q.dotted(st.value) == ps[0] for st in q.stores_to(fi.node, nm))}
+    if len(copies) == 1 and ps[0] not in dec_names:
+        nvar = next(iter(copies))
+    elif copies:
+        raise AnalysisError("%s: several counters derived from %s" % (fi.site(), ps[0]))
+    counter_inits = [st for st in q.stores_to(fi.node, nvar) if isinstance(st, ast.Assign) and q.dotted(st.value) == ps[0]] if nvar != ps[0] else []
     pops = own_find(fi, lambda x: method_call_on(x, WAIT, "popleft", "pop"))
     ck.floor("C34.notify-ts", len(pops), 1, "waiter removal sites in notify")
     popvars = set()
@@ -147,6 +163,8 @@ def check_notify(ck):
     lst = next(iter(lists))
     decs = {}
     for n in cfg.stmt_nodes(lambda n: n.kind == "stmt"):
+        if any(n.ast is st for st in counter_inits):
+            continue
         d = aug_delta(n.ast, nvar)
         if d is not None:
             decs[n.id] = d
@@ -445,6 +463,7 @@ def check_with_timeout(ck, R="C34.with-timeout", RS="C34.settle"):
 
 
 def run(ck):
+    ck.repo = normalized(ck.repo, NORM_MODULES)  # alias / named-boolean / temporary / setter-helper normalisation (vt/x_syncnorm.py)
     ck.rule("C34.cond-wait", "Condition.wait queues one fresh future at the tail, returns it, never settles it itself")
     ck.rule("C34.cond-timeout", "Condition.wait arms one timer iff a timeout was given; its callback resolves a live waiter with False exactly once, never True")
     ck.rule("C34.notify-ts", "Condition.notify pops only while n != 0 and the queue is non-empty; a popped waiter is skipped only if done(), otherwise counted once against n and collected once")
